@@ -12,6 +12,7 @@ import Uquic.Proofs.ConnIDTokens
 import Uquic.Proofs.ConnIDAccept
 import Uquic.Proofs.ConnIDClose
 import Uquic.Proofs.ConnIDRpt
+import Uquic.Proofs.ConnIDPaths
 
 namespace Uquic.Props.C16
 open Uquic.Model.ConnID Uquic.Proofs.ConnID
@@ -118,7 +119,8 @@ theorem updateConnectionID_nonempty {m : Manager} (h : Reach m) (hc : m.closed =
     spec advertises, the expiry callback of `ReplaceWithClosed` deletes only entries that still hold its own stand-in. -/
 theorem shape_facts :
     Uquic.Gen.ConnID.enforcedBoundIsGE = true ∧ Uquic.Gen.ConnID.enforcedBoundUsesConnIDLimit = true ∧ Uquic.Gen.ConnID.setConnectionIDLimitStores = true ∧
-    Uquic.Gen.ConnID.specClientSetsConnIDLimit = true ∧ Uquic.Gen.ConnID.expiryDeletesOnlyOwnHandler = true := by decide
+    Uquic.Gen.ConnID.specClientSetsConnIDLimit = true ∧ Uquic.Gen.ConnID.expiryDeletesOnlyOwnHandler = true ∧
+    Uquic.Gen.ConnID.serverGeneratorTracksRoutedIDs = true := by decide
 
 /-- Full strength: whatever limit `adv` the endpoint advertised — the plain constant, or the limit of a QUIC spec
     recorded with `SetConnectionIDLimit` — a NEW_CONNECTION_ID frame after which at most `adv` connection IDs are in
@@ -274,6 +276,35 @@ theorem expiry_removes_only_own (r : Routing) (d : Int) (kv : Bytes × Handler) 
   refine ⟨hin, ?_⟩
   intro t ht hdue hc
   exact hne ⟨t, ht, hdue, hc.1, hc.2⟩
+
+/-! ## path probing glue (path_manager.go around the manager) -/
+
+/-- A path that is dropped gives its connection ID back: for every history of the server-side path manager (packets from
+    new and known addresses, PATH_RESPONSEs, PATH_CHALLENGEs declared lost, evictions after `pathTimeout`, migration)
+    interleaved with the connection's other uses of the connection ID manager, every connection ID allocated for path
+    probing belongs to a path the path manager still tracks, or to the path the connection migrated to
+    (`SwitchToPath` keeps that one). Hypotheses on the history: the manager is open and the peer uses non-zero-length
+    connection IDs at every step (otherwise nothing is ever allocated), and nobody calls GetConnIDForPath /
+    RetireConnIDForPath behind the path manager's back. -/
+theorem probing_id_released (dest : Bytes) (ops : List SysOp)
+    (hv : SysRunValid { m := Manager.new dest } ops) :
+    ∀ k ∈ pKeys (Sys.run { m := Manager.new dest } ops).m,
+      k ∈ pathIDs (Sys.run { m := Manager.new dest } ops).pm ∨ k ∈ (Sys.run { m := Manager.new dest } ops).kept :=
+  released_run (s := { m := Manager.new dest }) (by intro k hk; simp [pKeys, Manager.new] at hk) hv
+
+/-- …and it does so by the book: when the PATH_CHALLENGE of a path is declared lost, the path is dropped,
+    RETIRE_CONNECTION_ID is queued for the sequence number of its connection ID, its stateless reset token is
+    unregistered, and the manager holds nothing for the path any more. -/
+theorem lost_challenge_retires {pm : PathManager} {m : Manager} {pid : Nat} {e : Entry} (hc : m.closed = false)
+    (hz : m.activeID ≠ []) (hp : pm.paths.any (fun p => p.id == pid) = true) (hl : lookupPath pid m.probing = some e) :
+    (onLost pm m pid).2.2.1 = [Ev.retire e.seq, Ev.rmTok e.tok] ∧ pid ∉ pathIDs (onLost pm m pid).1 ∧
+    pid ∉ pKeys (onLost pm m pid).2.1 :=
+  lost_retires hc hz hp hl
+
+example :
+    let s := Sys.run { m := Manager.new [9] }
+      [.mgr (.new 1 0 [1] [1] 0), .mgr (.new 2 0 [2] [2] 0), .pkt 7 100 false true, .pkt 8 200 true false, .lost 0, .resp 1]
+    pathIDs s.pm = [1] ∧ pKeys s.m = [1] ∧ inUse s.m = [0, 2] := by decide
 
 /-! ## the hypotheses are satisfiable by non-trivial histories -/
 
